@@ -215,11 +215,23 @@ def r_mag(E):
                               "unit, value emitted next to its unit); ceil/round need a fixed unit at each call site")
     UN = Units(pm)
     counts = {}
+    # private single-expression accessors / builders (`self._magnitudes`, `self._new_df(x)`) read as the expression they
+    # stand for: their own body is not a site, every use is
+    from ..astutil import inline_private_exprs, _single_return
+    views, accessors = {}, set()
     for mod, (rel, tree, src) in sorted(pm.modules.items()):
+        views[mod], used = inline_private_exprs(tree, pm.helper_finder)
+        accessors |= used
+    accessor_names = {h for _, h in accessors}
+    for mod, (rel, tree0, src) in sorted(pm.modules.items()):
+        tree = views[mod]
         for n in ast.walk(tree):
             sink = None
             if isinstance(n, ast.Attribute) and n.attr in ("magnitude", "m", "_data"):
                 sink = n
+            elif isinstance(n, ast.Attribute) and n.attr in accessor_names and isinstance(n.ctx, ast.Load) \
+                    and not (isinstance(n.value, ast.Name) and n.value.id == "self"):
+                sink = n      # an inlined accessor read on another object
             elif isinstance(n, ast.Attribute) and n.attr == "data" and isinstance(n.value, ast.Attribute) \
                     and n.value.attr == "values":
                 sink = n
@@ -238,6 +250,9 @@ def r_mag(E):
                 counts["display (excluded)"] = counts.get("display (excluded)", 0) + 1
                 continue
             q = f"{cls.name}.{fn.name}" if cls is not None else fn.name
+            if cls is not None and fn.name in accessor_names and _single_return(fn) is not None:
+                counts["private accessor (checked at its uses)"] = counts.get("private accessor (checked at its uses)", 0) + 1
+                continue
             if cls is not None and (cls.name, fn.name) in EXEMPT:
                 res.notes.append(f"{q}: exempt — {EXEMPT[(cls.name, fn.name)]}")
                 counts["exempt accessor"] = counts.get("exempt accessor", 0) + 1
